@@ -404,6 +404,11 @@ func (s *Storer) GetAofWritter(r io.Reader, offset int64) (*AofWriter, error) {
 
 	// allows only one writer
 	ds := s.getDataSet()
+	// the log is one contiguous run: like the memory cache, refuse a writer that does not
+	// continue at its right edge (the index would report the hole / the overlap as valid)
+	if right, ok := ds.AofRight(); ok && offset != right {
+		return nil, fmt.Errorf("discontinuous aof writer offset: offset(%d), expected(%d)", offset, right)
+	}
 	ds.CloseAofWriter()
 
 	w, err := NewAofWriter(s.Id, s.dir, offset, r, s.logSize, s.flush)
